@@ -420,6 +420,7 @@ func pmGenCase(t *rapid.T, prop string) (pmCase, string, bool) {
 		c.Regions = c07pGenRegions(t)
 	default:
 		c.Regions = pmGenRegions(t, 8, prop == "C03" && rapid.Bool().Draw(t, "forceBoundary"))
+		c.EntrySize = pmGenEntrySize(t)
 		if cls >= 580 {
 			// one more region exactly 2^32 frames (16 TiB) above an earlier one: frame numbers that
 			// agree in their low 32 bits
@@ -572,6 +573,7 @@ func TestVerifC07Pmm(t *testing.T) {
 			c.Regions = c07pGenRegions(t)
 		} else {
 			c.Regions = pmGenRegions(t, 6, false)
+			c.EntrySize = pmGenEntrySize(t)
 		}
 		ks, ke, _, ok := pmGenKernel(t, c.Regions)
 		if !ok {
